@@ -92,7 +92,7 @@ CLAIMED = {
             "in-memory consumer's topic filter",
             "Proof that a registration is stored under its name and served by its queue, that include_router yields the "
             "union with the later registration winning, and that a foreign, unexpired head message is rotated to the back "
-            "unchanged and never delivered or dead-lettered. 'No stale topic' holds for actor() and include_router() after fix F11 "
+            "unchanged and never delivered or dead-lettered. The Redis take path hands out only names whose topic part (up to the ':' delimiter) is one of the consumer's topics. 'No stale topic' holds for actor() and include_router() after fix F11 "
             "(Router._forget_topic under contract: the name leaves its old queue, a queue without topics is dropped).",
             "Other workers / processes are outside the model."),
     "C12": ("deductive verification of the four is_overdue, the in-memory NORMAL/DEAD consumption and the Redis consumer's "
@@ -107,11 +107,15 @@ CLAIMED = {
             "taking and holding, under cancellation at every await; finish() returning other consumers' messages is F14a.",
             "'had no holder before' relies on the container-disjointness invariant, which is not proved; Redis take path and "
             "RabbitMQ exclusivity: see evidence."),
-    "C15": ("deductive verification of in-memory enqueue (tail), __consume_normal (head, rotation) and __consume_delayed "
-            "(earliest due time, list order) with sequence reasoning in z3/cvc5",
+    "C15": ("deductive verification of in-memory enqueue (tail), __consume_normal (head, rotation), __consume_delayed "
+            "(earliest due time, list order), __update_delayed (due buckets enter as blocks, in order), the Redis enqueue / "
+            "return side (LPUSH / RPUSH) and the Redis window scan __fetch_message_name against the Redis list itself",
             "Proof that waiting messages enter at the tail and leave from the head, a rotated foreign head keeps the relative "
-            "order of the others, and delayed inspection returns the first message of the minimal due time.",
-            "Redis window scan (F15) and RabbitMQ ordering not yet under contract."),
+            "order of the others, delayed inspection returns the first message of the minimal due time, the messages of one due "
+            "time enter the waiting queue in enqueue order, and (after fix F15) the Redis consumer takes the matching name nearest "
+            "the tail for every list length and window count and gives up only when nothing matches.",
+            "Order among different due times that become due together is the iteration order of the dict; Redis delayed-set order "
+            "beyond the first window and RabbitMQ ordering are server side / not under contract. In-memory reject (F01a) is a known finding."),
     "C07": ("deductive verification of round-trip harnesses that compose the REAL encode/decode bodies (JSON text abstract, "
             "IEEE error model for durations), Redis key constructors/parsers over z3 strings with the validators' regexes, "
             "bucket marker, Job._construct_*, Job.enqueue, get_payload, RabbitMQ on_new_message",
